@@ -156,4 +156,50 @@ theorem compare_sums_congr_on_mask (p q : Pts) (h : p = q) : blockSums p = block
 example : bandStats (blockSums [(1, 2), (2, 4), (3, 7)]) = ⟨some (75 / 76), some 7, some (63 / 169), 3⟩ := by
   decide +kernel
 
+/-! ### The "Mean" row (round 12) -/
+
+theorem foldl_addO_none (l : List (Option Rat)) : l.foldl addO none = none := by
+  induction l with
+  | nil => rfl
+  | cons a l ih => simp only [List.foldl_cons]; cases a <;> exact ih
+
+theorem foldl_addO_some (l : List Rat) (a : Rat) : (l.map some).foldl addO (some a) = some (a + l.sum) := by
+  induction l generalizing a with
+  | nil => simp
+  | cons x l ih => simp only [List.map_cons, List.foldl_cons, addO, List.sum_cons]; rw [ih]; congr 1; ring
+
+/-- **"Mean" is the band average**: when every band's value is defined, the Mean entry is their sum over their number -/
+theorem meanRow_defined (l : List Rat) : meanRow (l.map some) = some (l.sum / (l.length : Rat)) := by
+  unfold meanRow sumOverBands
+  rw [foldl_addO_some]; simp
+
+/-- **"Mean" is undefined exactly when some band's value is**: an undefined term is neither skipped nor counted as 0 -/
+theorem meanRow_none_iff (l : List (Option Rat)) : meanRow l = none ↔ none ∈ l := by
+  unfold meanRow sumOverBands
+  rw [Option.map_eq_none_iff]
+  suffices h : ∀ (a : Rat), l.foldl addO (some a) = none ↔ none ∈ l from h 0
+  induction l with
+  | nil => intro a; simp
+  | cons x l ih =>
+    intro a
+    cases x with
+    | none => simp [addO, foldl_addO_none]
+    | some v => simp only [List.foldl_cons, addO, List.mem_cons]; rw [ih]; simp
+
+/-- the pattern of seeded change C11-k - undefined terms left out of the sum, the divisor still the number of bands - gives another
+    value than the band average as soon as one band is undefined (bands 0.9, undefined, 0.6: 0.5, where the average is undefined) -/
+theorem skipping_mean_differs :
+    meanRow [some (9/10), none, some (6/10)] = none ∧
+    ((([some (9/10), none, some (6/10)] : List (Option Rat)).filterMap id).sum / 3 : Rat) = 1/2 := by
+  constructor
+  · rw [meanRow_none_iff]; simp
+  · simp only [List.filterMap_cons, id, List.filterMap_nil, List.sum_cons, List.sum_nil]; norm_num
+
+/-- non-vacuity: three defined bands -/
+example : meanRow [some 1, some 2, some 6] = some 3 := by
+  have := meanRow_defined [1, 2, 6]
+  simp only [List.map_cons, List.map_nil, List.sum_cons, List.sum_nil, List.length_cons, List.length_nil] at this
+  rw [this]; norm_num
+
+
 end Homonim
